@@ -26,9 +26,10 @@ DEFAULT = dict(
     p_tick_back=0.0, mutation_ops=['write', 'write', 'rm', 'rm', 'mkdir',
                                    'touch'],
     p_refuse_step=0.0, n_muts=(1, 3), p_q_near_output=0.5, p_plant=0.0, p_double_clean=0.0,
-    p_plain_build=0.0, p_swap_groups=0.0, p_fail_after_nested=0.0,
+    p_plain_build=0.15, p_swap_groups=0.0, p_fail_after_nested=0.0,
     p_switch_root=0.3, p_anc_target=0.0, p_stepargs=0.0, p_chain=0.0,
-    p_retry=0.0, p_cache_in_output_dir=0.0,
+    p_retry=0.0, p_cache_in_output_dir=0.0, p_cache_target=0.02,
+    p_plain_bf=0.1,
 )
 
 # JSON values for arguments / return values / versions (C07, C16)
@@ -247,6 +248,9 @@ class Gen:
                         rel = rel.rsplit('/', 1)[0]
                     elif rel.count('/') < 2:
                         rel = rel + '/' + rng.choice(NAMES[:2])
+                if self.chance('p_cache_target'):
+                    # the cache file itself, or something below it
+                    rel = self.cur_cache_rel + rng.choice(['', '/x'])
                 args, kwargs = self.small_args()
                 cmp = 'HASH' if self.chance('p_hash') else 'METADATA'
                 st = ['bf', rel, fid, args, kwargs, cmp,
@@ -254,6 +258,8 @@ class Gen:
                 if self.chance('p_spelling'):
                     st.append(rng.choice(
                         ['bytes', 'pathlike', 'redundant', 'dotdot']))
+                elif cmp == 'METADATA' and self.chance('p_plain_bf'):
+                    st.append('plain')      # FileBuilder.build_file
                 body.append(st)
                 ctx['calls'].append(st)
                 if self.chance('p_retry'):
@@ -589,6 +595,7 @@ class Gen:
         U = self.gen_universe()
         self.cache_dir_mode = None
         cache_rel = rng.choice(self.p['cache_rels'])
+        self.cur_cache_rel = cache_rel
         if self.chance('p_cache_in_output_dir'):
             deep = [u for u in U if '/' in u] or ['a/b']
             d = rng.choice(deep).split('/')[0]
@@ -600,6 +607,7 @@ class Gen:
             if mid == 'm/n/':
                 anc.add(d + '/m/n')
             self.cache_dir_mode = anc
+            self.cur_cache_rel = cache_rel
             self.p = dict(self.p, w_probe=0, p_anc_target=0.0)
         funcs, roots, groups = self.gen_program(U)
         U = self.U_final
